@@ -24,7 +24,7 @@ pub mod task {
 pub use simrt::exec::spawn;
 
 pub mod time {
-    pub use simrt::time::{interval, interval_at, sleep, sleep_until, timeout, Elapsed, Instant, Interval, Sleep, Timeout};
+    pub use simrt::time::{interval, interval_at, sleep, sleep_until, timeout, timeout_at, Elapsed, Instant, Interval, MissedTickBehavior, Sleep, Timeout};
     pub use std::time::Duration;
     pub mod error {
         pub use simrt::time::Elapsed;
